@@ -13,7 +13,7 @@ RULE = ('Hypothesis-generated histories (<= 40 ops: create/add/replace/remove/de
         'two unused ids; two invariants (an entity that owns nothing does not exist; entities and entity_exists agree) are also evaluated from inside every lifecycle callback. '
         'A small share of the histories is AMPLIFIED: one operation, each operation or the whole history repeated 70-1100 times (sizes around 64/128/256/1024), full comparison at ~12 points and at the end. '
         ''
-        'Further generator dimensions: classes defined in the middle of the history, handlers whose __events__ lives on the instance, a base type the classes are only registered with (ABC.register: the queries must agree about it). '
+        'Further generator dimensions: classes defined in the middle of the history, handlers whose __events__ lives on the instance, lean handler classes (only the declared callbacks exist), a base type the classes are only registered with (ABC.register: the queries must agree about it). '
         'Non-trivial = >= 2 mutating steps and at least one of: replacement of an existing '
         'exact type, removal, deferred delete followed by process, automatic id requested after an explicit '
         'int id was used. Distinct = sha1 of the canonical JSON of the case.')
